@@ -38,6 +38,8 @@ package taskctl
 
 //@ ghost $lastReady scalar Bool
 //@ ghost $selfCancel scalar Bool
+// Scheduler.Cancel has told the task runner to stop the running tasks
+//@ ghost $runnerTold scalar Bool
 
 //@ func (*Scheduler).isDone
 //@   safety
@@ -140,9 +142,11 @@ package taskctl
 //@ func (*Scheduler).Cancel
 //@   safety
 //@   requires [nonnil] s != nil
-//@   modifies Scheduler.cancelled@[s]
+//@   modifies Scheduler.cancelled@[s], $runnerTold
 //@   at call Cancel#1: assert [C04.flagFirst] s.cancelled == 1
+//@   at call Cancel#1: ghost $runnerTold := true
 //@   ensures  [C04.flag] s.cancelled == 1
+//@   ensures  [C04.runnerTold] old(s.cancelled) != 1 ==> $runnerTold
 
 //@ property C08: taskctl.(*Scheduler).notifyStageChange/ensures* taskctl.(*Scheduler).Schedule/assert[C08.*] taskctl.(*Scheduler).Schedule/loop*/inv-*[C08.*] taskctl.checkStatus/*
 //@ property C02: taskctl.checkStatus/ensures[C02.*] taskctl.checkStatus/loop* taskctl.(*Scheduler).Schedule/assert[C02.*] taskctl.(*Scheduler).Schedule/loop*
